@@ -669,3 +669,126 @@ theorem install_bool_returns (mode : Mode) (s s1 : MState) (func jit : Nat) (v :
     · intro i h0 h4; simp [X86.setReg, h0, h4]
 
 end Inj.Machine
+
+namespace Inj.Machine
+open Inj
+
+/-! ## the latest installation is the one in effect -/
+
+/-- memory `m` carries an installed redirection of `func` through `jit` to `fake` -/
+def Redirects (mode : Mode) (m : Mem) (func jit fake : Nat) : Prop :=
+  ∃ br code, X86.genBranch mode func jit = Res.ok br ∧ X86.genBranch mode jit fake = Res.ok code ∧
+    X86.Holds m func br ∧ X86.Holds m jit code
+
+theorem install_redirects (mode : Mode) (s s1 : MState) (func fake jit : Nat)
+    (h : installX86 mode s func (Payload.exec fake) jit = some s1)
+    (hdis : ∀ x, (jit ≤ x ∧ x < jit + 4096) → ¬ (func ≤ x ∧ x < func + 12)) :
+    Redirects mode s1.mem func jit fake := by
+  obtain ⟨code, br, hcode, hbr, hmem, _, _, _⟩ := installX86_spec mode s s1 func (Payload.exec fake) jit h
+  have hcode' : X86.genBranch mode jit fake = Res.ok code := by
+    simp only [payloadCode] at hcode
+    cases hg : X86.genBranch mode jit fake with
+    | ok c' => rw [hg] at hcode; injection hcode with hcode; subst hcode; rfl
+    | panic w => rw [hg] at hcode; cases hcode
+  have hbl := X86.genBranch_len mode func jit br hbr
+  have hcl := X86.genBranch_len mode jit fake code hcode'
+  refine ⟨br, code, hbr, hcode', ?_, ?_⟩
+  · intro i hi
+    rw [hmem, writeMem_in _ _ _ _ (by omega) (by omega)]
+    congr 1; omega
+  · intro i hi
+    have hns := hdis (jit + i) ⟨by omega, by omega⟩
+    rw [hmem, writeMem_out _ _ _ _ (by omega)]
+    unfold afterJit
+    rw [writeMem_in _ _ _ _ (by omega) (by omega)]
+    congr 1; omega
+
+theorem redirects_reaches (mode : Mode) (m : Mem) (func jit fake : Nat)
+    (hf : func < 18446744073709551616) (hj : jit < 18446744073709551616) (hk : fake < 18446744073709551616)
+    (h : Redirects mode m func jit fake) (c : X86.Cpu) (hc : c.rip = func) :
+    ∃ k c', k ≤ 4 ∧ X86.run m k c = some c' ∧ c'.rip = fake ∧ SameButRax c c' := by
+  obtain ⟨br, code, hbr, hcode', hold1, hold2⟩ := h
+  have sameRefl : ∀ (c : X86.Cpu) (r : Nat), SameButRax c { c with rip := r } := fun c r => ⟨fun _ _ => rfl, rfl, rfl⟩
+  have sameSet : ∀ (c : X86.Cpu) (r v : Nat), SameButRax c { c with rip := r, gpr := X86.setReg c.gpr 0 v } :=
+    fun c r v => ⟨fun i hi => by simp [X86.setReg, hi], rfl, rfl⟩
+  have trans : ∀ (a b d : X86.Cpu), SameButRax a b → SameButRax b d → SameButRax a d :=
+    fun a b d h1 h2 => ⟨fun i hi => by rw [h2.1 i hi, h1.1 i hi], by rw [h2.2.1, h1.2.1], by rw [h2.2.2, h1.2.2]⟩
+  rcases X86.genBranch_run mode func jit br hf hj hbr m hold1 c hc with r1 | r1
+  · rcases X86.genBranch_run mode jit fake code hj hk hcode' m hold2 { c with rip := jit } rfl with r2 | r2
+    · exact ⟨1 + 1, _, by omega, by rw [run_add, r1]; exact r2, rfl, trans _ _ _ (sameRefl c jit) (sameRefl _ fake)⟩
+    · exact ⟨1 + 2, _, by omega, by rw [run_add, r1]; exact r2, rfl, trans _ _ _ (sameRefl c jit) (sameSet _ fake fake)⟩
+  · rcases X86.genBranch_run mode jit fake code hj hk hcode' m hold2
+        { c with rip := jit, gpr := X86.setReg c.gpr 0 jit } rfl with r2 | r2
+    · exact ⟨2 + 1, _, by omega, by rw [run_add, r1]; exact r2, rfl, trans _ _ _ (sameSet c jit jit) (sameRefl _ fake)⟩
+    · exact ⟨2 + 2, _, by omega, by rw [run_add, r1]; exact r2, rfl, trans _ _ _ (sameSet c jit jit) (sameSet _ fake fake)⟩
+
+/-- a redirection survives any change of memory outside its entry range and trampoline page -/
+theorem redirects_frame (mode : Mode) (m m' : Mem) (func jit fake : Nat)
+    (h : Redirects mode m func jit fake)
+    (hsame : ∀ x, (func ≤ x ∧ x < func + 12) ∨ (jit ≤ x ∧ x < jit + 4096) → m' x = m x) :
+    Redirects mode m' func jit fake := by
+  obtain ⟨br, code, hbr, hcode, h1, h2⟩ := h
+  have hbl := X86.genBranch_len mode func jit br hbr
+  have hcl := X86.genBranch_len mode jit fake code hcode
+  refine ⟨br, code, hbr, hcode, ?_, ?_⟩
+  · intro i hi; rw [hsame (func + i) (Or.inl ⟨by omega, by omega⟩)]; exact h1 i hi
+  · intro i hi; rw [hsame (jit + i) (Or.inr ⟨by omega, by omega⟩)]; exact h2 i hi
+
+/-- later installations elsewhere do not disturb an installed redirection -/
+theorem installs_keep_redirect (mode : Mode) (post : List Req) :
+    ∀ (s sf : MState), installs mode s post = some sf →
+      (∀ r ∈ post, ∀ x, inJit r x → ¬ inSlot r x) → FreshMaps s.maps post →
+      ∀ (func jit fake : Nat), Redirects mode s.mem func jit fake →
+        (∀ r ∈ post, ∀ x, (func ≤ x ∧ x < func + 12) ∨ (jit ≤ x ∧ x < jit + 4096) → ¬ inJit r x ∧ ¬ inSlot r x) →
+        Redirects mode sf.mem func jit fake := by
+  intro s sf h hdis hfresh func jit fake hred hsep
+  apply redirects_frame mode s.mem sf.mem func jit fake hred
+  intro x hx
+  exact installs_frame mode post s sf h hdis hfresh x (fun r hr => hsep r hr x hx)
+
+/-- **Latest wins.**  In a history `pre ++ [r] ++ post` where no later request touches the entry
+    range or the trampoline page of `r`, a call of `r.func` after the whole history reaches
+    `r`'s fake. -/
+theorem latest_wins (mode : Mode) (pre post : List Req) (func fake jit : Nat) (s0 sf : MState)
+    (h : installs mode s0 (pre ++ Req.mk func (Payload.exec fake) jit :: post) = some sf)
+    (hdis : ∀ r ∈ pre ++ Req.mk func (Payload.exec fake) jit :: post, ∀ x, inJit r x → ¬ inSlot r x)
+    (hfresh : FreshMaps s0.maps (pre ++ Req.mk func (Payload.exec fake) jit :: post))
+    (hsep : ∀ r ∈ post, ∀ x, (func ≤ x ∧ x < func + 12) ∨ (jit ≤ x ∧ x < jit + 4096) → ¬ inJit r x ∧ ¬ inSlot r x)
+    (hf : func < 18446744073709551616) (hj : jit < 18446744073709551616) (hk : fake < 18446744073709551616)
+    (c : X86.Cpu) (hc : c.rip = func) :
+    ∃ k c', k ≤ 4 ∧ X86.run sf.mem k c = some c' ∧ c'.rip = fake ∧ SameButRax c c' := by
+  -- split the run at the request
+  have split : ∀ (pre : List Req) (s0 : MState) (rest : List Req) (sf : MState),
+      installs mode s0 (pre ++ rest) = some sf → FreshMaps s0.maps (pre ++ rest) →
+      ∃ sm, installs mode s0 pre = some sm ∧ installs mode sm rest = some sf ∧ FreshMaps sm.maps rest := by
+    intro pre
+    induction pre with
+    | nil => intro s0 rest sf h hf; exact ⟨s0, rfl, h, hf⟩
+    | cons p ps ih =>
+      intro s0 rest sf h hf
+      simp only [List.cons_append, installs] at h
+      cases h1 : installX86 mode s0 p.func p.payload p.jit with
+      | none => simp [h1] at h
+      | some s1 =>
+        simp only [h1] at h
+        obtain ⟨_, _, _, _, _, _, hm, _⟩ := installX86_spec mode s0 s1 p.func p.payload p.jit h1
+        obtain ⟨hf1, hnz, hf2⟩ := hf
+        obtain ⟨sm, a, b, c'⟩ := ih s1 rest sf h (by rw [hm]; exact hf2)
+        exact ⟨sm, by simp only [installs, h1]; exact a, b, c'⟩
+  obtain ⟨sm, _, hrest, hfm⟩ := split pre s0 _ sf h hfresh
+  simp only [installs] at hrest
+  cases h1 : installX86 mode sm func (Payload.exec fake) jit with
+  | none => simp [h1] at hrest
+  | some s1 =>
+    simp only [h1] at hrest
+    have hself : ∀ x, (jit ≤ x ∧ x < jit + 4096) → ¬ (func ≤ x ∧ x < func + 12) := by
+      intro x hx
+      exact hdis (Req.mk func (Payload.exec fake) jit) (by simp) x hx
+    have hred := install_redirects mode sm s1 func fake jit h1 hself
+    obtain ⟨_, _, _, _, _, _, hm, _⟩ := installX86_spec mode sm s1 func (Payload.exec fake) jit h1
+    obtain ⟨_, _, hf2⟩ := hfm
+    have hkeep := installs_keep_redirect mode post s1 sf hrest
+      (fun r hr => hdis r (by simp [hr])) (by rw [hm]; exact hf2) func jit fake hred hsep
+    exact redirects_reaches mode sf.mem func jit fake hf hj hk hkeep c hc
+
+end Inj.Machine
